@@ -147,4 +147,36 @@ example : (overlapMemoRun oSchema Fixes.all (revRenameTr.doc (oDocFrag "a"))).1 
 example : (revRenameTr.doc (oDocFrag "a")).defs.head? = some (opV [] 1 [sp "B_", sp "A_"]) := by
   simp [revRenameTr, Tr.doc, oDocFrag, Tr.defn, Tr.selList, Tr.sel, opV, sp, fragQ]
 
+/-! ### reordering of definitions, all 26 rules -/
+
+/-- the statement for the whole chain as /repo runs it, rule by rule -/
+def FullStatement_perm_definitions_all26 (s : SchemaD) (fx : Fixes) (d d' : Doc) : Prop :=
+  ∀ r ∈ Rule.all, (SilentM s fx r d ↔ SilentM s fx r d')
+
+/-- **perm_definitions for ALL 26 RULES** (`perm_definitions_all25_partial` + `perm_definitions_overlap_memo`): the
+    hypotheses of the former (each needed: "the last definition wins") and the side conditions of the overlap theorem -/
+theorem perm_definitions_all26 (s : SchemaD) (fx : Fixes) (hfx : HeadVars fx) {d d' : Doc}
+    (h : d.defs.Perm d'.defs) (hnd : Spec.uniqueFragmentNames d) (hne : NamesNonEmpty d) (hk : Spec.uniqueOpKeys d)
+    (hv : Spec.uniqueVariableNames d) (hpa : Spec.ParentsAgree s d) (hw : WfIds d) :
+    FullStatement_perm_definitions_all26 s fx d d' := by
+  intro r _
+  by_cases ho : r = .overlappingFieldsCanBeMerged
+  · subst ho
+    rw [silentM_overlap, silentM_overlap]
+    exact perm_definitions_overlap_memo s fx hfx.2.2.2 h hnd hpa (noEmptyName_of hne) hw
+  · rw [silentM_of_ne ho, silentM_of_ne ho]
+    exact perm_definitions_all25_partial s fx hfx h hnd hne hk hv r ho
+
+example : FullStatement_perm_definitions_all26 oSchema Fixes.all (oDocFrag "a") ⟨(oDocFrag "a").defs.reverse⟩ :=
+  perm_definitions_all26 oSchema Fixes.all headVars_all (List.reverse_perm _).symm
+    (by unfold Spec.uniqueFragmentNames; decide) (by unfold NamesNonEmpty; decide) (by unfold Spec.uniqueOpKeys; decide)
+    (by
+      intro x hx k n vs ds i ss e
+      simp only [oDocFrag, opV, fragQ, List.mem_cons, List.not_mem_nil, or_false] at hx
+      rcases hx with rfl | rfl | rfl
+      · simp only [Def.op.injEq] at e; obtain ⟨_, _, rfl, _⟩ := e; decide
+      · cases e
+      · cases e)
+    (parentsAgree_frag "a") (by rw [← wfIdsB_iff]; decide)
+
 end PyGql.Props.C06
